@@ -295,7 +295,7 @@ def headResult (rest : List Action) (c : CS) (tmo : Option Time) (left : Time) (
   | .done =>
     processActionF fuel'
       { c with dev := { m.dev with acts := rest, loggedIn := m.dev.loggedIn || m.act.com == 0,
-                                    statActions := m.dev.statActions + 1 } }
+                                    statActions := m.dev.statActions + 1, xmStr := none, xmResult := false, xmUsed := false } }
       m.oracle (m.out ++ (if m.act.clientId != 0 then [Out.finish m.act.clientId .success] else [])) tmo
   | .running => ({ c with dev := { m.dev with acts := m.act :: rest }, aborted := true }, m.oracle,
       m.out ++ [Out.abortAssert "model: fuel exhausted"], tmo)
